@@ -54,6 +54,8 @@ type vEnv struct {
 	wrappers              []*vWrap
 	earlyServed           []int
 	populatedBeforeChecks bool
+	fixed                 [][3][]int // pre-drawn graph (C10: the same graph is started twice)
+	regOrder              []int
 }
 
 func (e *vEnv) ev(kind, node int) { e.log = append(e.log, vEvent{kind, node}) }
@@ -158,7 +160,9 @@ func (p *vProc) PostProcessProperties(props []*component_definition.Property, c 
 			}
 			e.chosen[v.idx][pt] = true
 			var tg []int
-			if pt < 2 {
+			if e.fixed != nil {
+				tg = e.fixed[v.idx][pt]
+			} else if pt < 2 {
 				// a required point always has a candidate here (the "no candidate" case is
 				// decided by the resolution processors, see the RH harness)
 				if e.required[v.idx][pt] {
@@ -667,5 +671,141 @@ func VerifC04B() {
 		nd.Assert(!e.f.singletonComponentRegistry.IsSingletonCurrentlyInCreation(e.nodes[i].name), "C04: a published name is no longer reported as in creation")
 		c2, _ := e.f.GetComponentByName(e.nodes[i].name)
 		nd.Assert(c2 == c, "C04: once published, the same instance is returned")
+	}
+}
+
+// ---------------------------------------------------------------------------
+// C10 (creation order): the same component set is started twice in one path, once
+// with the registries enumerating in insertion order and once under a symbolic
+// permutation of registration and enumeration order; success and wiring must agree.
+// ---------------------------------------------------------------------------
+
+type vSnap struct {
+	ok     bool
+	fields [][3][]int // per node and point: for every held object (target index*4 + version), version 0 = raw, 1.. = wrapper generation+1
+}
+
+func (e *vEnv) verOf(c any) int {
+	v := vNodeOf(c)
+	if v == nil {
+		return -1
+	}
+	if w, ok := c.(*vWrap); ok {
+		return v.idx*4 + 1 + w.gen
+	}
+	return v.idx * 4
+}
+
+func vStartFixed(n, points int, graph [][3][]int, wrapNode int, wrapEarly, wrapAfter, same bool, order []int) vSnap {
+	e := &vEnv{n: n, points: points, wrapNode: wrapNode, wrapEarly: wrapEarly, wrapAfter: wrapAfter, sameWrapper: same, fixed: graph}
+	e.f = &defaultFactory{
+		definitionRegistry:                support.DefaultDefinitionRegistry(),
+		singletonComponentRegistry:        support.DefaultSingletonComponentRegistry(),
+		postProcessorRegistrationDelegate: NewPostProcessorRegistrationDelegate(),
+		allowCircularReferences:           true,
+	}
+	e.chosen = make([][3]bool, n)
+	e.choice = make([][3][]int, n)
+	e.required = make([][3]bool, n)
+	e.nodes = make([]*vNode, n)
+	e.raws = make([]any, n)
+	e.metas = make([]*component_definition.Meta, n)
+	e.lazy = make([]bool, n)
+	for _, i := range order {
+		node := &vNode{name: vNames[i], idx: i, env: e}
+		e.nodes[i], e.raws[i] = node, node
+		m := e.f.definitionRegistry.GetMetaOrRegister(node.name, node)
+		for _, fld := range m.Fields {
+			pt := pointIndex(fld.StructField.Name)
+			if pt < 0 || points&(1<<uint(pt)) == 0 {
+				continue
+			}
+			m.SetProperties(component_definition.NewProperty(fld, component_definition.PropertyTypeComponent, "wire", ",required=false"))
+		}
+		e.metas[i] = m
+	}
+	proc := &vProc{env: e}
+	e.f.postProcessorRegistrationDelegate.RegisterComponentPostProcessors(proc, "vProc")
+	err := e.f.postProcessorRegistrationDelegate.InvokeBeanFactoryPostProcessors(e.f, nil)
+	nd.Assert(err == nil, "processor registration ok")
+	s := vSnap{ok: e.f.Refresh() == nil}
+	if !s.ok {
+		return s
+	}
+	s.fields = make([][3][]int, n)
+	for i, h := range e.nodes {
+		if h.P0 != nil {
+			s.fields[i][0] = []int{e.verOf(h.P0)}
+		}
+		if h.P1 != nil {
+			s.fields[i][1] = []int{e.verOf(h.P1)}
+		}
+		for _, el := range h.S0 {
+			s.fields[i][2] = append(s.fields[i][2], e.verOf(el))
+		}
+	}
+	return s
+}
+
+func VerifC10MC() {
+	n := nd.Param("N", 2)
+	points := nd.Param("POINTS", 5)
+	graph := make([][3][]int, n)
+	for i := 0; i < n; i++ {
+		for pt := 0; pt < 3; pt++ {
+			if points&(1<<uint(pt)) == 0 {
+				continue
+			}
+			if pt < 2 {
+				if k := nd.Choose(n + 1); k < n {
+					graph[i][pt] = []int{k}
+				}
+			} else {
+				for j := 0; j < n; j++ {
+					if nd.Bool() {
+						graph[i][pt] = append(graph[i][pt], j)
+					}
+				}
+			}
+		}
+	}
+	wrapNode := nd.Choose(n)
+	wrapEarly, wrapAfter, same := nd.Bool(), nd.Bool(), nd.Bool()
+	canon := make([]int, n)
+	for i := range canon {
+		canon[i] = i
+	}
+	nd.PermuteRange(false)
+	a := vStartFixed(n, points, graph, wrapNode, wrapEarly, wrapAfter, same, canon)
+	nd.PermuteRange(true)
+	b := vStartFixed(n, points, graph, wrapNode, wrapEarly, wrapAfter, same, nd.Perm(n))
+	nd.Assert(a.ok == b.ok, "C10: whether start-up succeeds does not depend on registration or enumeration order")
+	if !a.ok || !b.ok {
+		nd.Cover("start failed")
+		return
+	}
+	nd.Cover("start ok")
+	for i := 0; i < n; i++ {
+		for pt := 0; pt < 3; pt++ {
+			nd.Assert(len(a.fields[i][pt]) == len(b.fields[i][pt]), "C10: every injection point receives the same components under every order")
+			if len(a.fields[i][pt]) != len(b.fields[i][pt]) {
+				continue
+			}
+			if pt < 2 {
+				for k := range a.fields[i][pt] {
+					nd.Assert(a.fields[i][pt][k] == b.fields[i][pt][k], "C10: every injection point receives the same components under every order")
+				}
+			} else {
+				for _, x := range a.fields[i][pt] {
+					in := false
+					for _, y := range b.fields[i][pt] {
+						if x == y {
+							in = true
+						}
+					}
+					nd.Assert(in, "C10: every slice point receives the same set of components under every order")
+				}
+			}
+		}
 	}
 }
